@@ -173,7 +173,7 @@ func (fx *Fx) havoc(st *State, ws *writeSet) {
 					fx.havocSpecLoc(st, fd.pkg, bind, m)
 				}
 			}()
-			if fx.specUsesTrace(spec) {
+			if fx.specUsesTrace(spec) || fx.v.mayTouchTrace(key) {
 				abstract = true
 			}
 		}
@@ -213,7 +213,11 @@ func (fx *Fx) havocTrace(st *State) {
 			st.trCols[col] = nw
 			continue
 		}
-		st.assume(fmt.Sprintf("(forall ((k Int)) (! (=> (< k %s) (= (select %s k) (select %s k))) :pattern ((select %s k))))", n0, nw, old, nw))
+		cmp := "<"
+		if col == "acc" {
+			cmp = "<=" // acc[k] is the total accepted by calls [0,k): the entry at the current count is already fixed
+		}
+		st.assume(fmt.Sprintf("(forall ((k Int)) (! (=> (%s k %s) (= (select %s k) (select %s k))) :pattern ((select %s k))))", cmp, n0, nw, old, nw))
 		st.trCols[col] = nw
 	}
 }
@@ -288,6 +292,9 @@ func (fx *Fx) classifyCall(st *State, call *ast.CallExpr) int {
 		if sel, ok := info.Selections[f]; ok {
 			switch sel.Kind() {
 			case types.MethodVal:
+				if _, isTP := sel.Recv().(*types.TypeParam); isTP {
+					return callOther // method of a type parameter: an uninterpreted function
+				}
 				if _, isIface := sel.Recv().Underlying().(*types.Interface); isIface {
 					return callAbstract
 				}
@@ -315,7 +322,7 @@ func (fx *Fx) specUsesTrace(spec *FuncSpec) bool {
 	uses := false
 	for _, e := range spec.Ensures {
 		ast.Inspect(e.Expr, func(n ast.Node) bool {
-			if id, ok := n.(*ast.Ident); ok && (id.Name == "ncalls" || id.Name == "iscall") {
+			if id, ok := n.(*ast.Ident); ok && (id.Name == "ncalls" || id.Name == "iscall" || id.Name == "written" || id.Name == "carg" || id.Name == "cret") {
 				uses = true
 			}
 			return true
